@@ -8,7 +8,7 @@ pub fn def() -> PropDef {
     PropDef { id: "C15", level: "exploration", run, case, render }
 }
 
-const EMIN: i64 = -256;
+const EMIN: i64 = -260; // 2^-260 = 16^-65: the smallest normalised real (mantissa 1/16, exponent byte 0)
 const EMAX: i64 = 251; // 2^251 .. < 2^252
 
 fn pow2(e: i64) -> f64 {
@@ -99,7 +99,7 @@ fn neigh_case(src: &mut Src, ctx: &mut Ctx) -> Result<(), String> {
     let i = src.u64();
     match neigh_value(i) {
         None => {
-            ctx.excluded("below 16^-64 (out of the property's range)");
+            ctx.excluded("below 16^-65 (outside the GDSII real range)");
             Ok(())
         }
         Some(x) => {
@@ -281,7 +281,7 @@ fn record_case(src: &mut Src, ctx: &mut Ctx) -> Result<(), String> {
 fn literal_values() -> Vec<f64> {
     let mut v = vec![0.0, 1.0, -1.0, 1e-3, 1e-9, 1e-6, 0.1, 90.0, 180.0, 270.0, 1.0 / 3.0, 0.25, 16.0, 1.0 / 16.0];
     // predecessors / successors of powers of sixteen
-    for k in [-64i64, -63, -10, -1, 0, 1, 2, 10, 62] {
+    for k in [-65i64, -64, -63, -10, -1, 0, 1, 2, 10, 62] {
         let p = pow2(4 * k);
         v.push(p);
         v.push(f64::from_bits(p.to_bits() + 1));
@@ -308,7 +308,7 @@ fn literal_case(src: &mut Src, ctx: &mut Ctx) -> Result<(), String> {
 fn run(run: &mut Run) {
     run.rule("in-range doubles: every value within 16 ulp of each power of two in range (exhaustive), every one-/two-bit mantissa at every exponent (exhaustive), random 52-bit mantissas; normalised 8-byte reals: every 1-3-bit mantissa at every exponent (exhaustive), random reals incl. 54-56 significant bits and rounding ties. Non-trivial = within 16 ulp of a power of sixteen or >= 50 significant bits; distinct by bit pattern.");
     run.assume("R-real (harness/src/refmodel/gdsreal.rs) is the exact integer model of the format");
-    run.assume("-0.0 is only required to come back as zero; values outside 16^-64 <= |x| < 16^63 are not generated");
+    run.assume("-0.0 is only required to come back as zero; values outside the normalised range 16^-65 <= |x| < 16^63 are not generated (the quantifier names 16^-64; the band [16^-65, 16^-64) is exponent byte 0 with a normalised mantissa and lies inside the format's range the statement speaks of)");
     let lits: Vec<Vec<u32>> = (0..literal_values().len() as u32).map(|i| vec![0, i]).collect();
     run.literals("literals", &lits, &literal_case);
     run.enumerate("pow2-neighbourhoods", neigh_total(), &neigh_case);
